@@ -57,25 +57,25 @@ def run_history(ops):
         err = None
         try:
             if k == 'new':
-                cur2 = mido.Message(op[1], **dict(op[2]))
+                cur2 = mido.Message(op[1], **{n: _real(v) for n, v in op[2]})
                 cur = cur2
             elif k == 'fromdict':
-                d = dict(op[2])
+                d = {n: _real(v) for n, v in op[2]}
                 d['type'] = op[1]
                 cur = mido.Message.from_dict(d)
             elif cur is None:
                 err = 'Other'
             elif k == 'copy':
-                kw = dict(op[2])
+                kw = {n: _real(v) for n, v in op[2]}
                 if op[1] is not None:
                     kw['type'] = op[1]
                 cur = cur.copy(**kw)
             elif k == 'set':
-                setattr(cur, op[1], op[2])
+                setattr(cur, op[1], _real(op[2]))
             elif k == 'del':
                 delattr(cur, op[1])
             elif k == 'iadd':
-                cur.data += op[1]
+                cur.data += _real(op[1])
         except Exception as e:
             err = exc_name(e)
             allowed = ('ValueError', 'TypeError', 'AttributeError')
@@ -112,10 +112,26 @@ def enc(op):
     return 'mo iadd ' + metas.val_tok(op[1])
 
 
+class SX(tuple):
+    """marker: at run time this becomes the `.data` object (a SysexData) of ANOTHER message that was built with
+    skip_checks=True - the one way to get hold of a SysexData instance with arbitrary items"""
+
+    def __repr__(self):
+        return 'SX(%s)' % tuple.__repr__(self)
+
+
+def _real(v):
+    if isinstance(v, SX):
+        import mido
+        return mido.Message('sysex', data=list(v), skip_checks=True).data
+    return v
+
+
 def values_for(rng, name):
     if name == 'data':
         return rng.choice([(), (1, 2), [0, 127], [128], [-1], b'\x01\x02', 'ab', 5, None, [1.5], (1, 'a'), [True],
-                           [1, 1.0], [7, 2, 7.0], (0, 0.0), [3, 3, 3.0], [1.0, 1], [127, 127.0]] + WRONG)
+                           [1, 1.0], [7, 2, 7.0], (0, 0.0), [3, 3, 3.0], [1.0, 1], [127, 127.0],
+                           SX((1, 2)), SX((1, 200)), SX((1.5, 2)), SX((3, -1)), SX(())] + WRONG)
     if name == 'time':
         return rng.choice([0, 1, -5, 2.5, 10 ** 20, 'x', None, [1], True])
     if name in msgs.RANGES:
